@@ -4,6 +4,7 @@ package main
 
 import (
 	"fmt"
+	"go/constant"
 	"go/types"
 	"strings"
 
@@ -218,11 +219,31 @@ func (c *EvalCtx) ident(name string) TV {
 			return TV{V: v, T: t, S: c.prog.sortOf(t)}
 		}
 	}
+	if c.pkg != nil {
+		if cn, ok := c.pkg.Scope().Lookup(name).(*types.Const); ok {
+			return c.constTV(cn)
+		}
+	}
 	// nullary spec function / constant
 	if f, ok := c.prog.U.Funs[name]; ok && len(f.Params) == 0 {
 		return tvTerm(SymApp(name, f.Ret))
 	}
 	c.fail("unknown identifier %q", name)
+	return TV{}
+}
+
+func (c *EvalCtx) constTV(cn *types.Const) TV {
+	switch cn.Val().Kind() {
+	case constant.Bool:
+		return c.typed(BoolLit(constant.BoolVal(cn.Val())), cn.Type())
+	case constant.String:
+		return c.typed(StrLit(constant.StringVal(cn.Val())), cn.Type())
+	case constant.Int:
+		if i, ok := constant.Int64Val(cn.Val()); ok {
+			return c.typed(IntLit(i), cn.Type())
+		}
+	}
+	c.fail("unsupported constant %s", cn.Name())
 	return TV{}
 }
 
@@ -423,6 +444,11 @@ func (c *EvalCtx) field(v *EField) TV {
 					if g := c.findGlobal(pk.PkgPath, v.Name); g != nil {
 						val, t := c.x.load(c.state(), &Ptr{Global: g, Elem: g.Type().(*types.Pointer).Elem()})
 						return TV{V: val, T: t, S: c.prog.sortOf(t)}
+					}
+					if pk.Types != nil {
+						if cn, ok := pk.Types.Scope().Lookup(v.Name).(*types.Const); ok {
+							return c.constTV(cn)
+						}
 					}
 					c.fail("unknown global %s.%s", id.Name, v.Name)
 				}
